@@ -40,7 +40,8 @@ EXPLANATION = (
     "and leave at the end marker (R3); tdma_sched_execute runs the current bucket's items 0..n-1 of "
     "the sorted sequence with their own (p1,p2,p3) -- the loop's upper end is evaluated for every fill level "
     "0..ARRAY_SIZE(item), through clamping/min helpers (helper results are ?: terms over their branch conditions) "
-    "-- and empties that bucket on every non-error return "
+    "-- and empties that bucket on every non-error return: by a store of 0 after the last callback, or by leaving over a "
+    "branch edge whose condition holds for fill level 0 only (evaluated for all fill levels, on the count as it is at the branch) "
     "(R4); the sort helper initialises the full identity sequence and exchanges when the earlier "
     "element's prio is greater, comparing prio only (R5); the priority parameter stored by tdma_schedule, the "
     "item field prio, every temporary and every integral conversion up to the two operands of the sort's "
@@ -548,18 +549,22 @@ class Fn:
             if want is not None and rec != want:
                 name = "%s::%s" % (rec, name)
             if n.get("isArrow"):
-                return ("fld", deref(self.rval(ks[0])), name)
+                b = self.rval(ks[0])
+                self.ring_site(b, C0, n, ks[0], None, bare=True)
+                return ("fld", deref(b), name)
             return ("fld", self.lval(ks[0]), name)
         if k == "ArraySubscriptExpr":
             base = self.rval(ks[0])
             i = self.rval(ks[1])
             if self.rec and base[0] == "addr" and base[1][0] == "idx" and base[1][2] == C0 \
                     and base[1][1][0] == "fld" and base[1][1][2] == "bucket":
-                self.sites.append({"node": self.cur, "S": base[1][1][1], "idx": i, "ast": n,
+                self.sites.append({"node": self.cur, "S": base[1][1][1], "idx": i, "ast": n, "base_ast": ks[0],
                                    "qt": strip(ks[1]).get("type", {}).get("qualType", "")})
             return deref(padd(base, i))
         if k == "UnaryOperator" and n.get("opcode") == "*":
-            return deref(self.rval(ks[0]))
+            b = self.rval(ks[0])
+            self.ring_site(b, C0, n, ks[0], None, bare=True)
+            return deref(b)
         self.unsupported(n, "lvalue")
 
     def load(self, lv, qt=None):
@@ -582,6 +587,15 @@ class Fn:
                 ev.update(extra)
             self.stores.append(ev)
         self.bump(grp)
+
+    def ring_site(self, base, i, n, base_ast, idx_ast, bare=False):
+        """`sched->bucket + i` selects a frame of the ring exactly like `&sched->bucket[i]`: same index site.
+        bare: `*p` / `p->f` with p the decayed array itself: frame 0, whatever the ring position (a pointer to frame 0
+        made by an index site looks the same -- that site is a constant index already)."""
+        if self.rec and base[0] == "addr" and base[1][0] == "idx" and base[1][2] == C0 \
+                and base[1][1][0] == "fld" and base[1][1][2] == "bucket":
+            self.sites.append({"node": self.cur, "S": base[1][1][1], "idx": i, "ast": n, "base_ast": base_ast,
+                               "qt": strip(idx_ast).get("type", {}).get("qualType", "") if idx_ast is not None else "int"})
 
     def is_ptr(self, n):
         qt = n.get("type", {}).get("qualType", "")
@@ -713,8 +727,10 @@ class Fn:
             if op in ("<", ">", "<=", ">=", "==", "!="):
                 return X.cmp_(op, a, b)
             if op in ("+", "-") and self.is_ptr(ks[0]) and not self.is_ptr(ks[1]):
+                self.ring_site(a, b if op == "+" else X.neg(b), n, ks[0], ks[1])
                 return padd(a, b if op == "+" else X.neg(b))
             if op == "+" and self.is_ptr(ks[1]) and not self.is_ptr(ks[0]):
+                self.ring_site(b, a, n, ks[1], ks[0])
                 return padd(b, a)
             return self.arith(op, a, b, n)
         if k == "CompoundAssignOperator":
@@ -1350,6 +1366,37 @@ def classify_index(fn, site, ring):
                         "-- unclassifiable" % (fn.name, show(I)))
 
 
+def ring_alias(fn, n):
+    """The mention `n` of the ring array only initialises / is assigned to a local pointer that is written nowhere
+    else in the function (never stepped): the pointer IS the ring base wherever it is used, and the value tracking
+    records each of its uses (p[i], p + i, *p, p->f) as an index site of the ring."""
+    tu = fn.tu
+    top = n
+    par = tu.parent.get(id(top))
+    while par is not None and kind(par) in ("ImplicitCastExpr", "ParenExpr", "CStyleCastExpr", "ConstantExpr"):
+        top, par = par, tu.parent.get(id(par))
+    did = None
+    if par is not None and kind(par) == "VarDecl":
+        did = par.get("id")
+    elif par is not None and kind(par) == "BinaryOperator" and par.get("opcode") == "=" and kids(par)[1] is top:
+        lhs = strip(kids(par)[0])
+        if kind(lhs) == "DeclRefExpr":
+            did = lhs.get("referencedDecl", {}).get("id")
+    if did is None or fn.vclass.get(did) != "scalar":
+        return False
+    writes = 0
+    for x in walk(fn.f):
+        k = kind(x)
+        if k == "VarDecl" and x.get("id") == did and x.get("init"):
+            writes += 1
+        elif (k == "BinaryOperator" and x.get("opcode") == "=") or k == "CompoundAssignOperator" or \
+                (k == "UnaryOperator" and x.get("opcode") in ("++", "--")):
+            t = strip(kids(x)[0])
+            if kind(t) == "DeclRefExpr" and t.get("referencedDecl", {}).get("id") == did:
+                writes += 1
+    return writes == 1
+
+
 def r2_ring(a):
     R = "C08.R2"
     ring = a.NFR
@@ -1362,7 +1409,40 @@ def r2_ring(a):
                 name, show(site["S"]), show(site["idx"]), ring),
                 "cur_bucket | (cur_bucket + offset) mod %d | loop counter in [0, %d]" % (ring, ring - 1),
                 text, ok, site["node"])
-    a.L.floor(R, "index sites into bucket[]", nsites, 6)
+    # Floors on anchors, not on the number of index expressions (which legitimately varies: a lookup factored into a
+    # helper such as tdma_cur_bucket() merges two sites into one): (1) each of the three anchor operations reaches at
+    # least one classified bucket[] index, in its own body or in a helper of this file it calls; (2) completeness --
+    # every evaluated mention of the ring array `bucket` in this file IS the base of a classified index (sizeof /
+    # ARRAY_SIZE operands are not evaluated), so no access to the ring escapes the classification above.
+    def closure(name, seen):
+        if name in seen or name not in a.fns:
+            return seen
+        seen.add(name)
+        for c in a.fns[name].calls:
+            closure(c["name"], seen)
+        return seen
+    anchors = ("tdma_schedule", "tdma_schedule_set", "tdma_sched_execute")
+    reach = [n for n in anchors if any(a.fns[m].sites for m in closure(n, set()))]
+    a.L.floor(R, "anchor operations (%s) that reach a classified bucket[] index" % ", ".join(anchors), len(reach), len(anchors))
+    a.L.floor(R, "index sites into bucket[]", nsites, 1)
+    for name, fn in a.fns.items():
+        covered = set()
+        for site in fn.sites:
+            b = strip(site["base_ast"], casts=True)
+            if kind(b) == "MemberExpr":
+                covered.add(id(b))
+        stack = [fn.f]
+        while stack:
+            n = stack.pop()
+            if kind(n) == "UnaryExprOrTypeTraitExpr":
+                continue
+            if kind(n) == "MemberExpr" and n.get("name") == "bucket" and id(n) not in covered:
+                fd = a.tu.by_id.get(n.get("referencedMemberDecl"))
+                rec = (a.tu.parent.get(id(fd)) or {}).get("name") if fd is not None else None
+                if rec == "tdma_scheduler" and not ring_alias(fn, n):
+                    raise AnalysisError("%s(): the ring array `bucket` is used other than as the base of an index expression "
+                                        "(line %s) -- the accessed frame is unclassifiable" % (name, n.get("_line")))
+            stack.extend(c for c in kids(n) if isinstance(c, dict))
     wb = a.fns.get("wrap_bucket")
     if wb is not None:
         vals = {r["val"] for r in wb.rets}
@@ -1695,13 +1775,64 @@ def r4_execute(a):
             a.sort = (c["name"], c["args"].index(("addr", B)), c["args"].index(("addr", ("idx", SEQ, C0))))
     # emptied on every non-error return
     cnodes = {ic["node"].id for ic in fn.icalls}
-    enodes = set()
+    enodes, dnodes = set(), set()
+    NUMcur = ("fld", Bcur, "num_items")
     for s in fn.stores:
         if s["grp"] == "num_items" and s["how"] == "assign" and s["val"] == C0 and \
-                unver(s["lv"]) == unver(("fld", Bcur, "num_items")):
+                unver(s["lv"]) == unver(NUMcur):
             enodes.add(s["node"].id)
-        if s["grp"] == "ALL" and is_zero_fill(s) and unver(s["lv"]) == unver(Bcur):
+        elif s["grp"] == "ALL" and is_zero_fill(s) and unver(s["lv"]) == unver(Bcur):
             enodes.add(s["node"].id)
+        elif s["grp"] in ("num_items", "ALL") and \
+                (unver(s["lv"]) == unver(NUMcur) or (s["grp"] == "ALL" and unver(s["lv"]) == unver(Bcur))):
+            dnodes.add(s["node"].id)       # the current bucket's count is set to something that is not known to be 0
+    enodes -= dnodes
+
+    # A branch edge that can only be taken when the current bucket holds no item establishes "empty" as well as a
+    # store of 0 does (fast path `if (bucket->num_items == 0) return 0;`, `if (!n) goto out;` with a cached count,
+    # `num_items < 1`, ...).  Decided by value: the atoms of the edge are evaluated for every fill level
+    # n = 0 .. ARRAY_SIZE(item) of the current bucket (the range R1 establishes); the edge proves emptiness iff
+    # n = 0 is the only level that satisfies them.  The tested count must be the count at the branch (same memory
+    # version: no store / call-back between the load and the test); a test of an older count proves nothing here
+    # and is remembered as `stale` (-> no verdict instead of an alarm, see below).
+    stale = set()
+
+    def zero_edge(p, l):
+        if p.kind != "cond" or l not in (True, False) or p.id not in fn.out:
+            return False
+        now = fn.ver("num_items", fn.out[p.id])
+        ok_levels = set(range(a.NCB + 1))
+        old_levels = set(ok_levels)
+        for at in fn.atoms(p, l):
+            lds = [x for x in subterms(("t", at[1], at[2])) if isinstance(x, tuple) and x[0] == "ld"
+                   and unver(x[1]) == unver(NUMcur)]
+            if not lds:
+                continue
+            fresh = all(x[2] == now for x in lds)
+            sat = set()
+            for n in range(a.NCB + 1):
+                def leaf(t, n=n):
+                    if t[0] == "ld" and unver(t[1]) == unver(NUMcur):
+                        return n
+                    return None
+                try:
+                    x, y = eval_term(at[1], leaf), eval_term(at[2], leaf)
+                except Unknown:
+                    sat = None
+                    break
+                if ((x < y) if at[0] == "<" else (x == y)) == bool(at[3]):
+                    sat.add(n)
+            if sat is None:
+                continue
+            old_levels &= sat
+            if fresh:
+                ok_levels &= sat
+        if ok_levels == {0}:
+            return True
+        if old_levels == {0}:
+            stale.add(p.id)
+        return False
+    zedges = {(p.id, l) for n in g.nodes for (p, l) in n.pred if p.id in fn.inn and zero_edge(p, l)}
     clean_in = {n.id: True for n in g.nodes}
     clean_out = dict(clean_in)
     clean_in[g.entry.id] = False
@@ -1711,10 +1842,10 @@ def r4_execute(a):
             if n.id not in fn.inn:
                 continue
             if n is not g.entry:
-                ci = all(clean_out[p.id] for (p, _l) in n.pred if p.id in fn.inn)
+                ci = all(clean_out[p.id] or (p.id, l) in zedges for (p, l) in n.pred if p.id in fn.inn)
             else:
                 ci = False
-            co = True if n.id in enodes else (False if n.id in cnodes else ci)
+            co = True if n.id in enodes else (False if (n.id in cnodes or n.id in dnodes) else ci)
             if (ci, co) != (clean_in[n.id], clean_out[n.id]):
                 clean_in[n.id], clean_out[n.id] = ci, co
                 changed = True
@@ -1730,6 +1861,11 @@ def r4_execute(a):
         if exempt:
             continue
         nret += 1
+        if not clean_in[node.id] and any(c.id in stale for (c, _l) in fn.guard_edges(node)):
+            raise AnalysisError("tdma_sched_execute(): the path to `return %s` is taken only when an EARLIER reading of the "
+                                "current bucket's num_items was 0 (stores / call-backs lie between the reading and the test) "
+                                "-- whether the bucket is still empty there is unclassifiable" % (
+                                    show(val) if val is not None else ""))
         a.ob(R, name, "the executed bucket is emptied (num_items = 0) after the last callback on the path to `return %s`" % (
             show(val) if val is not None else ""),
             "emptied", "emptied" if clean_in[node.id] else "not emptied after the last callback on some path",
